@@ -45,9 +45,11 @@ CHECKS = {
             "models on stack-heavy grammars (nested backtracking, implicit rules with stack side effects), "
             "exceptions counted as violations.", "4.C05", PARSE_TECH),
     "C06": ("proof", "Theorems (SpecWf.v, PairsApi.v): every tree returned by the reference semantics is an ordered, nested, "
-            "non-overlapping chain inside [start_pos, len], names are non-silent rules, single root for a non-silent "
+            "non-overlapping chain inside [start_pos, len], names are non-silent rules, tags are tags written in the grammar "
+            "(SpecTags.v), single root for a non-silent "
             "start rule; tokens() balanced and sorted; flatten() is the pre-order. Check: the same invariants evaluated "
-            "directly on every tree of every mode, plus dump()/dumps() agreement (tested, not proved).", "4.C06",
+            "directly on every tree of every mode, plus dump()/dumps() agreement (tested, not proved). The same theorems are "
+            "transported to the interpreter and generated-code models by refinement (MachineCor.v).", "4.C06",
             PARSE_TECH),
     "C07": ("proof", "Theorems: no Err when all references are defined (the model has no other abnormal outcome), "
             "determinism, fuel-independence, TERMINATION for every grammar accepted by the well-formedness "
@@ -58,6 +60,7 @@ CHECKS = {
             "4.C07", PARSE_TECH),
     "C16": ("proof", "Theorem (SpecShift.v): for SOI-free grammars run commutes with shifting positions, hence "
             "parse(text, k) = shift k (parse(text[k:], 0)) and the prefix is irrelevant; counter-example with SOI. "
+            "Transported to the interpreter and generated-code models (C16_interpreter_shift, C16_generated_shift). "
             "Check: both statements on the implementation in four modes for every k > 0.", "4.C16", PARSE_TECH),
     "C01": ("proof", "Theorem C01_generated_equals_interpreter (GenProof.v, no axioms): for the model of the interpreter "
             "(Interp.v) and the statement-level model of the generated code (Gen.v: every generate() template, "
@@ -72,11 +75,20 @@ CHECKS = {
             "vs O, generated source loads, generate() twice byte-identical. Outside the model: compile/exec and the module "
             "prelude.", "4.C01",
             "refinement proof between two machine models + exact differential tie of each model to its execution mode"),
-    "C02": ("proof", "Theorems: unroll is sound by definition of the reference semantics (bounded repetitions are their "
-            "unrolled sequences); skip's side condition. Other passes: decided differentially on every run (O vs I, OG vs "
-            "IG) on grammars built around each rewrite trigger under the default pipeline, each single pass and seeded "
-            "subsets/permutations/repetitions, all modes tied to the reference semantics.", "4.C02",
-            "Coq laws for unroll + optimized-vs-unoptimized differential over pass configurations"),
+    "C02": ("proof", "Translation validation with a proved validator. Theorem C02_validated_optimization_preserves_meaning "
+            "(OptProof.ochk_sound, no axioms): if the executable checker Opt.ochk_grammar accepts the rule tables before and "
+            "after optimisation, then from every start rule, on every input and start position, the two tables give the same "
+            "tree and final state, or both fail, or both hit the undefined rule (both directions); corollary for the "
+            "interpreter model on the two tables. The checker recognises unrolling, (!lits ~ ANY)* -> SkipUntil where trivia "
+            "is off, inlining of plain silent rules, and squashing of terminal choices into the ordered alternation the "
+            "compiled regex denotes (no conflicting pair reordered), and rejects everything else. On every run the extracted "
+            "checker validates the tables python-pest's optimizer ACTUALLY produced for every generated grammar (default "
+            "pipeline, each single pass, seeded permutations / subsets / repetitions: ~4000 tables per quick run, all "
+            "accepted on the current tree; it rejects the outputs of the optimizer defects repaired earlier), and O vs I / "
+            "OG vs IG are compared on all cases (the source of replays). Not modelled: the passes themselves; the exporter "
+            "reads the compiled regex text of an OptimizedChoice and maps it to terminals (trusted); the fused SKIP rule is "
+            "compared through execution only.", "4.C02",
+            "proved translation validator run on the real optimizer output + optimized-vs-unoptimized differential"),
     "C08": ("proof", "Theorems (SpecEquiv.v, 22 statements): untagged group is identity, sequence / choice re-association, "
             "extraction of a sub-expression into a fresh silent rule, duplicate alternative, never-matching "
             "alternatives (positive and negated), congruence for every construct (so the rewrites compose at any "
@@ -110,7 +122,8 @@ CHECKS = {
             "Coq set-level theorems + exhaustive sweep of the finite code space"),
     "C13": ("proof", "Theorems: failure position is -1 or inside [start_pos, len]; listed names are rules; "
             "error_context is line_col of the position (C14's theorem). Rendering text itself is tested on every "
-            "rejected input in four modes.", "4.C13", PARSE_TECH),
+            "rejected input in four modes. Position and names theorems transported to the interpreter and generated-code "
+            "models (MachineCor.v).", "4.C13", PARSE_TECH),
     "C14": ("proof", "Theorem C14_line_col: for every text with \\n breaks and EVERY offset 0..len, line_col = (1 + "
             "breaks before p, 1 + distance from last break); injectivity. Model of splitlines/line_col/line_of/"
             "Span.lines tied exhaustively: all texts over {a,b,\\n} to length 7, \\r\\n and other breaks, "
